@@ -605,12 +605,12 @@ structure EnvFields where
 /-- literalStore for the three field types -/
 def storeMember (st : EnvFields) (key val : Str) : Outcome EnvFields :=
   let fk := foldKey key
-  if fk = "SUMTYPE".toList then
+  if fk = ['S', 'U', 'M', 'T', 'Y', 'P', 'E'] then
     match val with
     | '"' :: r => .ok { st with sumType := goUnquote r.dropLast }
     | 'n' :: _ => .ok st
     | _ => .err "cannot unmarshal into string"
-  else if fk = "OPCODE".toList then
+  else if fk = ['O', 'P', 'C', 'O', 'D', 'E'] then
     match val with
     | 'n' :: _ => .ok { st with opCode := none }
     | c :: _ =>
@@ -619,7 +619,7 @@ def storeMember (st : EnvFields) (key val : Str) : Outcome EnvFields :=
         | .ok n => if n < 2 ^ 32 then .ok { st with opCode := some n } else .err "overflow"
         | _ => .err "cannot unmarshal number into uint32"
     | [] => .err "empty"
-  else if fk = "VALUE".toList then .ok { st with value := some val }
+  else if fk = ['V', 'A', 'L', 'U', 'E'] then .ok { st with value := some val }
   else .ok st
 
 def storeMembers (st : EnvFields) : List (Str × Str) → Outcome EnvFields
@@ -644,7 +644,7 @@ inductive Body (C V : Type) where
   | unknown (op : Option Nat) (c : C)
   | known (name : Str) (op : Option Nat) (v : V)
 
-def unknownName : Str := "Unknown".toList
+def unknownName : Str := ['U', 'n', 'k', 'n', 'o', 'w', 'n']
 
 /-- InMsgBody.UnmarshalJSON / ExtOutMsgBody.UnmarshalJSON; `parseCell` is Cell.UnmarshalJSON, `parseKnown name` the
 decoder of the registered type of that name (`none`: not registered) -/
@@ -664,17 +664,68 @@ def parseEnvelope {C V} (parseCell : Str → Outcome C) (parseKnown : Str → Op
         | none => .err "unexpected end of JSON input"
         | some raw => (pk raw).bind fun v => .ok (.known r.sumType r.opCode v)
 
+def kSum : Str := ['S', 'u', 'm', 'T', 'y', 'p', 'e']
+def kOp : Str := ['O', 'p', 'C', 'o', 'd', 'e']
+def kVal : Str := ['V', 'a', 'l', 'u', 'e']
+
+/-- `"OpCode":<n>,` -/
 def printOp : Option Nat → Str
   | none => []
-  | some n => "\"OpCode\":".toList ++ printNat n ++ [',']
+  | some n => '"' :: kOp ++ '"' :: ':' :: printNat n ++ [',']
+
+/-- `{"SumType": "<name>",["OpCode":<n>,]"Value":<value>}` (the blank after the first colon is in the Go source) -/
+def envText (name : Str) (op : Option Nat) (pv : Str) : Str :=
+  '{' :: ('"' :: kSum ++ '"' :: ':' :: [' '] ++ quote name ++ ',' :: (printOp op ++ ('"' :: kVal ++ '"' :: ':' :: pv ++ ['}'])))
 
 /-- InMsgBody.MarshalJSON (an empty body drops its op code) -/
 def printEnvelope {C V} (printCell : C → Str) (printKnown : V → Str) : Body C V → Str
   | .empty _ => ['{', '}']
-  | .unknown op c => "{\"SumType\": \"".toList ++ unknownName ++ "\",".toList ++ printOp op ++ "\"Value\":".toList ++
-      printCell c ++ ['}']
-  | .known name op v => "{\"SumType\": \"".toList ++ name ++ "\",".toList ++ printOp op ++ "\"Value\":".toList ++
-      printKnown v ++ ['}']
+  | .unknown op c => envText unknownName op (printCell c)
+  | .known name op v => envText name op (printKnown v)
+
+/-! ## a composite record through encoding/json's default struct codec: tlb.Anycast inside tlb.Maybe
+
+`Maybe[Anycast]` is the optional value of a record WITHOUT JSON methods of its own: json.Marshal writes
+`{"Depth":<d>,"RewritePfx":<p>}`, json.Unmarshal stores the members by (case-folded) name into two uint32 fields. -/
+
+def kDepth : Str := ['D', 'e', 'p', 't', 'h']
+def kPfx : Str := ['R', 'e', 'w', 'r', 'i', 't', 'e', 'P', 'f', 'x']
+
+def printAnycastJson (a : Anycast) : Str :=
+  '{' :: ('"' :: kDepth ++ '"' :: ':' :: printNat a.depth ++ ',' :: ('"' :: kPfx ++ '"' :: ':' :: printNat a.pfx ++ ['}']))
+
+/-- literalStore into a uint32 field: `null` leaves it, a number must be a decimal integer that fits -/
+def storeUint32 (old : Nat) (val : Str) : Outcome Nat :=
+  match val with
+  | 'n' :: _ => .ok old
+  | c :: _ =>
+    if c == '"' || c == '{' || c == '[' || c == 't' || c == 'f' then .err "cannot unmarshal into uint32"
+    else match parseUint val 10 64 with
+      | .ok n => if n < 2 ^ 32 then .ok n else .err "overflow"
+      | _ => .err "cannot unmarshal number into uint32"
+  | [] => .err "empty"
+
+def storeAnycastMember (a : Anycast) (key val : Str) : Outcome Anycast :=
+  let fk := foldKey key
+  if fk = ['D', 'E', 'P', 'T', 'H'] then (storeUint32 a.depth val).bind fun d => .ok { a with depth := d }
+  else if fk = ['R', 'E', 'W', 'R', 'I', 'T', 'E', 'P', 'F', 'X'] then (storeUint32 a.pfx val).bind fun p => .ok { a with pfx := p }
+  else .ok a
+
+def storeAnycastMembers (a : Anycast) : List (Str × Str) → Outcome Anycast
+  | [] => .ok a
+  | (k, v) :: ms => (storeAnycastMember a k v).bind fun a' => storeAnycastMembers a' ms
+
+/-- json.Unmarshal(data, &anycast) on a zero value -/
+def parseAnycastJson (data : Str) : Outcome Anycast :=
+  if !valid data then .err "syntax"
+  else
+    let v := trimWs data
+    match v with
+    | 'n' :: _ => .ok ⟨0, 0⟩
+    | _ =>
+      match objectMembers v with
+      | some ms => storeAnycastMembers ⟨0, 0⟩ ms
+      | none => .err "cannot unmarshal into struct"
 
 end Tongo.Json
 
